@@ -205,10 +205,20 @@ def concrete_check(prog, rows, bind):
     """Real compile + real SQLite under both scan orders vs the plain list evaluator (ordered)."""
     from lsst.daf.relation import RelationalAlgebraError
 
+    env0 = sqlprogs.concrete_env(prog, bind)
+    must_refuse = _must_refuse(prog)
+    try:  # refusals do not depend on whether the program's result is determinate
+        accepted = build(prog, env0)
+        if must_refuse and "mat" not in ops_of(prog):
+            return True, "buried-sort-accepted", {"tree": str(accepted)}
+    except RelationalAlgebraError as e:
+        if "row order" in str(e):
+            return (False, "", None) if must_refuse else (True, "spurious-row-order-refusal", str(e)[:120])
+    except Exception:  # noqa: BLE001 - other construction failures: see below / C08
+        pass
     if not sqlprogs.determinate(prog, bind):
         return False, "indeterminate", None
     env0 = sqlprogs.concrete_env(prog, bind)
-    must_refuse = _must_refuse(prog)
     for reverse in (False, True):
         try:
             rel, ex, got, env = sqlprogs.run_real_sql(prog, bind, rows, reverse=reverse)
